@@ -162,6 +162,37 @@ def replay_case(cid, m, ex, model, final_inv: bool):
     return e1.mk_case(cid, {}, txs, balances=bal), calls
 
 
+def slicing_phase(chk: Check, tier: str, work):
+    """PathSlice.tla: the slice of a path for a set of state variables is the connected component of its
+    conditions (what identifies a frontier state); every history TLC enumerates is replayed into the real Path."""
+    from harness import pathslice_replay
+
+    tr = run_tlc("PathSlice", "MC_PathSlice_q.cfg" if tier == "quick" else "MC_PathSlice_t.cfg", work=work, timeout=3600)
+    if tr.rc != 0 or tr.violated:
+        raise MachineryError(f"PathSlice.tla: {tr.violated or tr.rc}\n{tr.stdout[-800:]}")
+    chk.add_tlc(tr)
+    neg = run_tlc("PathSlice", "MC_PathSlice_backward.cfg", work=work, timeout=1800, expect_violation=True)
+    if neg.violated != "SliceIsComponent":
+        raise MachineryError(f"PathSlice.tla: the backward-only dependency update is not refuted ({neg.violated})")
+    chk.count("negative_controls_rejected")
+    rnd = random.Random(chk.seed + 150)
+    recs = tr.records
+    if tier == "quick" and len(recs) > 2500:
+        recs = rnd.sample(recs, 2500)
+    elif len(recs) > 40000:
+        recs = rnd.sample(recs, 40000)
+    for rec in recs:
+        errs = pathslice_replay.replay(rec)
+        chk.count("slice_histories_replayed")
+        if errs:
+            chk.violation("slice-not-component:" + "|".join("".join(c) for c in rec["paths"][0]["conds"]), errs[0], {"history": rec, "disagreements": errs[:5]})
+    # negative control of the replay: with the pre-fix update rule some history must disagree
+    with pathslice_replay.backward_only_append():
+        if not any(pathslice_replay.replay(rec) for rec in recs[:400]):
+            raise MachineryError("slice replay: the backward-only update rule is not noticed")
+    chk.count("negative_controls_rejected")
+
+
 def run(chk: Check, tier: str):
     rnd = random.Random(92821 * chk.seed + 15)
     n = 24 if tier == "quick" else 400
@@ -176,8 +207,13 @@ def run(chk: Check, tier: str):
             machines.append(invgen.gen_machine(rnd, depth=d))
     work = workdir("c15")
     try:
+        slicing_phase(chk, tier, work)
         # --- specification side: brute force of all bounded call sequences
         # probe with a stable key: the property's "non-decreasing timestamps" include a first call later than setUp
+        # fixed machines: a break that needs two calls in the same block / a strictly later second call
+        machines.append(invgen.same_block_machine())
+        machines.append(invgen.later_block_machine())
+        machines.append(invgen.merge_machine())
         late = len(machines)
         machines.append(invgen.late_machine())
         cases = [invgen.frontier_case(i, m, first_at_setup=(i != late)) for i, m in enumerate(machines)]
@@ -299,6 +335,8 @@ def run(chk: Check, tier: str):
         "complete finite domains (arguments masked to 0..3, senders {OWNER, OTHER}, values {0,1}, non-decreasing timestamps from 1..d+1) with one Evm!Run per call; "
         "a third of the machines declare target/exclude filters (contracts, selectors, senders; 14 shapes) through forge-std's getters: "
         "Frontier!TargetAddrs/TargetFns/Senders resolve them by Foundry's rules and the calls and sender sets halmos sets up are compared with them; "
+        "state identity: PathSlice.tla (slice = connected component of the path's conditions; backward-only update refuted) with every enumerated "
+        "append/branch history replayed into the real Path; "
         "run_contract with --invariant-depth d must FAIL iff a break exists and each valid counterexample (captured call "
         "sequence + model) is replayed on Evm.tla; non-trivial = machines whose invariant is breakable within the depth"
     )
